@@ -26,6 +26,20 @@ func axisSubsets(r int) [][]int {
 	return out
 }
 
+func permsOf(s []int) [][]int {
+	if len(s) <= 1 {
+		return [][]int{append([]int{}, s...)}
+	}
+	var out [][]int
+	for i := range s {
+		rest := append(append([]int{}, s[:i]...), s[i+1:]...)
+		for _, p := range permsOf(rest) {
+			out = append(out, append([]int{s[i]}, p...))
+		}
+	}
+	return out
+}
+
 func genC09(e *emitter, tier string) {
 	R, E := 3, 3
 	if tier == "thorough" {
@@ -75,6 +89,22 @@ func genC09(e *emitter, tier string) {
 					}
 				}
 				e.emit(opCase("reduce", op, []Attr{{Name: "axes", Type: "ints", Ints: ints64(sub)}}, []*TJ{tie(s)}, nil))
+				// every ORDER of the listed axes (not only ascending / descending), spellings mixed within one list
+				if len(sub) >= 2 && (r == 4 || len(sub) >= 3) {
+					for pi, p := range permsOf(sub) {
+						mixed := make([]int, len(p))
+						for i, a := range p {
+							mixed[i] = a
+							if (i+pi)%2 == 1 {
+								mixed[i] = a - r
+							}
+						}
+						e.emit(opCase("reduce-orders", op, []Attr{{Name: "axes", Type: "ints", Ints: ints64(mixed)}, {Name: "keepdims", Type: "i", I: int64(pi % 2)}}, []*TJ{tie(s)}, nil))
+					}
+				} else if len(sub) == 2 {
+					e.emit(opCase("reduce-orders", op, []Attr{{Name: "axes", Type: "ints", Ints: []int64{int64(sub[1]), int64(sub[0] - r)}}, {Name: "keepdims", Type: "i", I: 0}}, []*TJ{tie(s)}, nil))
+					e.emit(opCase("reduce-orders", op, []Attr{{Name: "axes", Type: "ints", Ints: []int64{int64(sub[0]), int64(sub[1] - r)}}, {Name: "keepdims", Type: "i", I: 1}}, []*TJ{tie(s)}, nil))
+				}
 			}
 			e.emit(opCase("reduce", op, []Attr{{Name: "keepdims", Type: "i", I: 0}}, []*TJ{tie(s)}, nil))
 			e.emit(opCase("reduce", op, []Attr{{Name: "keepdims", Type: "i", I: 1}}, []*TJ{tie(s)}, nil))
